@@ -544,7 +544,7 @@ def main(argv: list[str]) -> int:
     framing_samples: list[Any] = []
     distinct_seg: set[tuple[int, ...]] = set()
     for cfg, lens in ((("Gen_Ipc_B.cfg", [2, 1]),) if tier == "quick" else (("Gen_Ipc_B.cfg", [2, 1]), ("Gen_Ipc_A.cfg", [1, 3, 2]))):
-        g = tlc("MC_Ipc", cfg, workers=1 if tier == "quick" else 4, coverage=False, timeout=1800)
+        g = tlc("MC_Ipc", cfg, workers=1, coverage=False, timeout=3000, heap="8g")
         if not g.ok:
             raise MachineryError("Gen Ipc: %s %s" % (g.violated, g.error))
         hists = g.json_lines("HIST")
